@@ -150,6 +150,7 @@ impl Stats {
         self.bump("slow_consumer_stall", h.stats.consumer_stalls);
         self.bump("stale_waker_ignored", h.stats.stale_wakes);
         self.bump("log_after_callback_returned_span_kept_open", h.stats.late_logs);
+        self.bump("entity_at_the_address_of_a_freed_one", h.stats.reused_addresses);
         if plan.sched.fresh_wakers {
             self.bump("run_with_fresh_waker_per_poll", 1);
         }
@@ -305,6 +306,7 @@ impl Stats {
         self.bump(&format!("stack:{}", ch.stack), 1);
         if plan.writer.real_runner {
             self.bump("history_from_real_runner", 1);
+            self.bump("entity_at_the_address_of_a_freed_one", ch.stats.reused_addresses);
         }
         // interleaving measure: hash of the input's (kind, scenario) sequence; non-trivial iff
         // two attempts are open at once somewhere in the input or a failure/skip/error occurs
@@ -366,6 +368,7 @@ impl Stats {
         self.bump(&format!("reporter:{}", rh.reporter), 1);
         if plan.writer.real_runner {
             self.bump("history_from_real_runner", 1);
+            self.bump("entity_at_the_address_of_a_freed_one", rh.stats.reused_addresses);
         }
         let mut hsh = core::FNV_INIT;
         let mut open = 0u64;
